@@ -1,14 +1,22 @@
 #!/usr/bin/env python3
 """Run every witness generator on the UNCHANGED crate for several seeds and both tiers: any hit is a false alarm of the
 corpus (or a genuine defect) and must be looked at before the corpus is committed. usage: witness_selftest.py [nseeds]"""
-import sys, json, subprocess, os
+import os, sys, json, subprocess, os
 ROOT = os.path.dirname(os.path.dirname(os.path.abspath(__file__)))
 sys.path.insert(0, os.path.join(ROOT, 'witness'))
 import witness
 D = os.path.join(ROOT, '.build/driver/debug/chiritori-verif-driver')
 def drive(reqs):
-    p = subprocess.run([D], input='\n'.join(json.dumps(r) for r in reqs) + '\n', capture_output=True, text=True)
-    return [json.loads(l) for l in p.stdout.splitlines()]
+    groups = {}
+    for k, r in enumerate(reqs):
+        groups.setdefault(json.dumps(r.get('env') or {}, sort_keys=True), []).append(k)
+    outs = [None] * len(reqs)
+    for ekey, idx in groups.items():
+        p = subprocess.run([D], input='\n'.join(json.dumps({k: v for k, v in reqs[i].items() if k != 'env'}) for i in idx) + '\n',
+                           capture_output=True, text=True, env=dict(os.environ, **json.loads(ekey)))
+        for i, l in zip(idx, p.stdout.splitlines()):
+            outs[i] = json.loads(l)
+    return outs
 bad = 0
 for prop in sorted(witness.GENERATORS):
     for big in (False, True):
